@@ -75,6 +75,13 @@ class VLoop(asyncio.BaseEventLoop):
 
     def step(self):
         """One real loop iteration: run exactly the handles that are ready now."""
+        import heapq
+
+        while self._scheduled and self._scheduled[0]._when <= self._vt:  # as BaseEventLoop._run_once does
+            h = heapq.heappop(self._scheduled)
+            h._scheduled = False
+            if not h._cancelled:
+                self._ready.append(h)
         n = len(self._ready)
         self.iterations += 1
         for _ in range(n):
@@ -84,7 +91,7 @@ class VLoop(asyncio.BaseEventLoop):
             h._run()
 
     def idle(self):
-        return not self._ready
+        return not self._ready and not any(not h._cancelled and h._when <= self._vt for h in self._scheduled)
 
     def run_idle(self, maxit=10000):
         k = 0
